@@ -35,6 +35,7 @@ import (
 	"fmt"
 	"math"
 	"strconv"
+	"strings"
 
 	"github.com/XiaoMi/Gaea/mysql"
 	"github.com/XiaoMi/Gaea/util"
@@ -148,6 +149,117 @@ func escapeSQL(sql string) string {
 	return string(t)
 }
 
+// how the backend treats a backslash inside a string literal, as far as the session's
+// sql_mode tells
+const (
+	backslashIsEscape  = iota // default: \ starts an escape sequence
+	backslashIsLiteral        // sql_mode contains NO_BACKSLASH_ESCAPES
+	backslashUnknown          // sql_mode was set to an expression the proxy cannot evaluate
+)
+
+// sqlModeBackslash evaluates the text assigned to sql_mode (a quoted or bare list of mode
+// names, or the numeric form; NO_BACKSLASH_ESCAPES is bit 20).
+func sqlModeBackslash(mode string) int {
+	mode = strings.TrimSpace(mode)
+	if n, err := strconv.ParseUint(mode, 10, 64); err == nil {
+		if n&(1<<20) != 0 {
+			return backslashIsLiteral
+		}
+		return backslashIsEscape
+	}
+	if l := len(mode); l >= 2 && (mode[0] == '\'' || mode[0] == '"') && mode[l-1] == mode[0] {
+		mode = mode[1 : l-1]
+	}
+	for _, c := range []byte(mode) {
+		if !(c == ',' || c == '_' || c == ' ' || (c >= '0' && c <= '9') || (c >= 'a' && c <= 'z') || (c >= 'A' && c <= 'Z')) {
+			return backslashUnknown
+		}
+	}
+	for _, m := range strings.Split(mode, ",") {
+		if strings.EqualFold(strings.TrimSpace(m), "NO_BACKSLASH_ESCAPES") {
+			return backslashIsLiteral
+		}
+	}
+	return backslashIsEscape
+}
+
+// mbLeadByte reports whether c starts a multi-byte character in one of the character sets
+// whose trailing bytes can be 0x5c (backslash).
+func mbLeadByte(charset string, c byte) bool {
+	switch charset {
+	case "gbk", "gb18030":
+		return c >= 0x81 && c <= 0xfe
+	case "big5":
+		return c >= 0xa1 && c <= 0xf9
+	case "sjis", "cp932":
+		return (c >= 0x81 && c <= 0x9f) || (c >= 0xe0 && c <= 0xfc)
+	}
+	return false
+}
+
+// mbCharLen returns the length of the valid multi-byte character starting at b[i] in such
+// a character set, 0 if there is none. The backend lexes a valid character as a unit, so
+// its bytes must be copied unescaped.
+func mbCharLen(charset string, b []byte, i int) int {
+	if i+1 >= len(b) || !mbLeadByte(charset, b[i]) {
+		return 0
+	}
+	t := b[i+1]
+	switch charset {
+	case "gbk", "gb18030":
+		if (t >= 0x40 && t <= 0x7e) || (t >= 0x80 && t <= 0xfe) {
+			return 2
+		}
+		if charset == "gb18030" && i+3 < len(b) && t >= 0x30 && t <= 0x39 &&
+			b[i+2] >= 0x81 && b[i+2] <= 0xfe && b[i+3] >= 0x30 && b[i+3] <= 0x39 {
+			return 4
+		}
+	case "big5":
+		if (t >= 0x40 && t <= 0x7e) || (t >= 0xa1 && t <= 0xfe) {
+			return 2
+		}
+	case "sjis", "cp932":
+		if (t >= 0x40 && t <= 0x7e) || (t >= 0x80 && t <= 0xfc) {
+			return 2
+		}
+	}
+	return 0
+}
+
+// escapeStringParam escapes a string parameter for a single-quoted literal that the backend
+// will lex under the session's sql_mode and character set.
+func escapeStringParam(v string, backslash int, charset string) (string, error) {
+	if backslash == backslashIsEscape {
+		switch charset {
+		case "gbk", "gb18030", "big5", "sjis", "cp932":
+		default:
+			return escapeSQL(v), nil
+		}
+		b := []byte(v)
+		t := make([]byte, 0, len(b)+8)
+		for i := 0; i < len(b); {
+			if n := mbCharLen(charset, b, i); n > 0 {
+				t = append(t, b[i:i+n]...)
+				i += n
+				continue
+			}
+			// a lead byte that does not start a valid character is escaped as well, otherwise it
+			// would swallow the backslash of a following escaped quote (0xbf 0x27 -> 0xbf 0x5c 0x27)
+			if b[i] == '\\' || b[i] == '\'' || mbLeadByte(charset, b[i]) {
+				t = append(t, '\\')
+			}
+			t = append(t, b[i])
+			i++
+		}
+		return string(t), nil
+	}
+	// a quote is doubled (valid under every sql_mode); a backslash stays as it is
+	if backslash == backslashUnknown && strings.IndexByte(v, '\\') >= 0 {
+		return "", fmt.Errorf("can not bind a string containing a backslash: session sql_mode is an expression")
+	}
+	return strings.Replace(v, "'", "''", -1), nil
+}
+
 // Stmt prepare statement struct
 type Stmt struct {
 	id          uint32
@@ -175,6 +287,12 @@ func (s *Stmt) GetParamTypes() []byte {
 
 // GetRewriteSQL get rewrite sql
 func (s *Stmt) GetRewriteSQL() (string, error) {
+	return s.getRewriteSQL(backslashIsEscape, "")
+}
+
+// getRewriteSQL builds the statement text for a backend that lexes it under the given
+// backslash mode (see sqlModeBackslash) and character set
+func (s *Stmt) getRewriteSQL(backslash int, charset string) (string, error) {
 	var buffer bytes.Buffer
 	index := 0
 
@@ -182,8 +300,11 @@ func (s *Stmt) GetRewriteSQL() (string, error) {
 		if s.sqlItems[i] == "?" {
 			quote, tmp := util.ItoString(s.args[index])
 			index++
-			tmp = escapeSQL(tmp)
 			if quote {
+				var err error
+				if tmp, err = escapeStringParam(tmp, backslash, charset); err != nil {
+					return "", err
+				}
 				tmp = "'" + tmp + "'"
 			}
 			buffer.WriteString(tmp)
@@ -259,7 +380,15 @@ func (se *SessionExecutor) handleStmtExecute(reqCtx *util.RequestContext, data [
 			return nil, err
 		}
 
-		executeSQL, err = s.GetRewriteSQL()
+		backslash := backslashIsEscape
+		if v, ok := se.sessionVariables.Get(mysql.SQLModeStr); ok {
+			if variable, ok := v.(*mysql.Variable); ok {
+				if mode, ok := variable.Get().(string); ok {
+					backslash = sqlModeBackslash(mode)
+				}
+			}
+		}
+		executeSQL, err = s.getRewriteSQL(backslash, se.GetCharset())
 		if err != nil {
 			return nil, err
 		}
